@@ -93,16 +93,118 @@ def _oracle_one(case):
         signal.alarm(0)
 
 
+_ITEMS = None
+
+
+def _worker_loop(wid, fn, modname, tasks, results, cur, since, rlo, rhi):
+    """one worker: takes (start, end) ranges, reports what it is working on (for the watchdog), returns whole ranges"""
+    _init_worker(modname)
+    while True:
+        t = tasks.get()
+        if t is None:
+            return
+        start, end = t
+        rlo[wid], rhi[wid] = start, end
+        out = []
+        for i in range(start, end):
+            since[wid] = time.time()      # first the time, then the index: the watchdog never sees a new index with an old time
+            cur[wid] = i
+            out.append(fn(_ITEMS[i]))
+        cur[wid] = -1
+        results.put((start, end, out))    # SimpleQueue: sent synchronously, nothing is left behind in a feeder thread
+
+
 def pmap(fn, modname, items, procs=16):
+    """parallel map over worker processes that survives a case which never returns: the per-case alarm of the workers
+    cannot interrupt code that does not come back to the interpreter (a backtracking regex, a C loop), so a watchdog
+    kills a worker that sits on one case for too long, records a timeout for that case and carries on."""
+    global _ITEMS
     if not items:
         return []
-    if len(items) < 64 or procs <= 1:
-        _init_worker(modname)
-        return [fn(x) for x in items]
+    mod = importlib.import_module(modname)
+    soft = getattr(mod, "CASE_TIMEOUT_S", 20)
+    hard = soft + 15
+    killed_value = "(raise Timeout)" if fn is _impl_one else "the real code did not return within %d s (worker killed)" % hard
     ctx = mp.get_context("fork")
-    with ctx.Pool(procs, initializer=_init_worker, initargs=(modname,)) as pool:
-        chunk = max(1, min(2000, len(items) // (procs * 4)))
-        return pool.map(fn, items, chunksize=chunk)
+    _ITEMS = items
+    n = len(items)
+    procs = max(1, min(procs, n))
+    chunk = max(1, min(2000, n // (procs * 4) or 1))
+    # results come back over a SimpleQueue: a Queue hands the data to a feeder thread, and a worker whose main thread
+    # then gets stuck in C code (holding the GIL) would freeze that thread in mid-send, holding the queue's write lock
+    tasks, results = ctx.Queue(), ctx.SimpleQueue()
+    pending = 0
+    for start in range(0, n, chunk):
+        tasks.put((start, min(n, start + chunk)))
+        pending += 1
+    cur = ctx.Array("l", [-1] * procs, lock=False)
+    since = ctx.Array("d", [0.0] * procs, lock=False)
+    rlo = ctx.Array("l", [0] * procs, lock=False)
+    rhi = ctx.Array("l", [0] * procs, lock=False)
+    out = [None] * n
+    dead = set()
+
+    def requeue(idx, near=None):
+        """contiguous runs of the indices in `idx` as new tasks; the cases right after a stuck one (`near`) go out one
+        by one - stuck cases come in families that sit next to each other, and single-case tasks let all workers share
+        them instead of one worker paying one kill after the other; the rest in pieces of 25. Returns the number of tasks"""
+        runs = []
+        for x in idx:
+            single = near is not None and near < x <= near + 200
+            if runs and not single and not runs[-1][2] and runs[-1][1] == x and x - runs[-1][0] < 25:
+                runs[-1][1] = x + 1
+            else:
+                runs.append([x, x + 1, single])
+        for a, b, _single in runs:
+            tasks.put((a, b))
+        return len(runs)
+
+    def spawn(wid):
+        pr = ctx.Process(target=_worker_loop, args=(wid, fn, modname, tasks, results, cur, since, rlo, rhi), daemon=True)
+        pr.start()
+        return pr
+    workers = [spawn(w) for w in range(procs)]
+    try:
+        while pending:
+            if results._reader.poll(1.0):
+                start, end, vals = results.get()
+                out[start:end] = vals
+                pending -= 1
+                continue
+            now = time.time()
+            for w, pr in enumerate(workers):
+                i = cur[w]
+                if i >= 0 and now - since[w] > hard and pr.is_alive():
+                    pr.kill()
+                    pr.join()
+                    out[i] = killed_value
+                    dead.add(i)
+                    # the range the worker was in is lost: redo what is still missing of it - never a case that was
+                    # killed before - in small pieces, so that another stuck case costs one kill and little rework
+                    lo, hi = rlo[w], rhi[w]
+                    pending -= 1
+                    pending += requeue([x for x in range(lo, hi) if x not in dead and (x > i or out[x] is None)], near=i)
+                    cur[w] = -1
+                    workers[w] = spawn(w)
+                elif not pr.is_alive() and pending:
+                    # a worker died on its own (e.g. the interpreter was killed by the OS): treat like a stuck case
+                    if i >= 0:
+                        out[i] = "(raise WorkerDied)" if fn is _impl_one else "the worker process died"
+                        dead.add(i)
+                        lo, hi = rlo[w], rhi[w]
+                        pending -= 1
+                        pending += requeue([x for x in range(lo, hi) if x not in dead and (x > i or out[x] is None)])
+                        cur[w] = -1
+                    workers[w] = spawn(w)
+    finally:
+        for _ in workers:
+            tasks.put(None)
+        for pr in workers:
+            pr.join(timeout=2)
+            if pr.is_alive():
+                pr.kill()
+        _ITEMS = None
+    return out
 
 
 def load_known(pid):
